@@ -93,6 +93,23 @@ let handle (line : string) : string =
                        (text_of cps) (nat_of_int (atom_int k)) in
            pr_res res
        | _ -> failwith "P: arguments")
+  | "PI" ->
+      (* PI rule k fuel cp cp ... : the interpreter model (coq/Interp.v) *)
+      (match parse_sexp rest with
+       | r :: k :: fuel :: cps ->
+           (match iparse !grammar (nat_of_int (atom_int fuel)) (n_of_int (atom_int r))
+                    (text_of cps) (nat_of_int (atom_int k)) with
+            | IOk (true, _, ps) ->
+                Buffer.clear buf; Buffer.add_string buf "OK";
+                List.iter (fun p -> Buffer.add_char buf ' '; pr_pair p) ps;
+                Buffer.contents buf
+            | IOk (false, s, _) ->
+                Printf.sprintf "FAIL %d %s ; %s" (int_of_z s.i_trk.t_pos) (pr_names s.i_trk.t_exp) (pr_names s.i_trk.t_unexp)
+            | ICrash -> "CRASH"
+            | IUndef -> "ERR"
+            | IFuel -> "FUEL")
+       | _ -> failwith "PI: arguments")
+  | "W" -> if wf_auto !grammar then "WF" else "NOTWF"
   | "C" ->
       (* C rule lo hi fuel : code points c in [lo, hi] for which parse rule [c] 0 succeeds, as ranges *)
       (match List.map int_of_string (List.filter (fun w -> w <> "") (String.split_on_char ' ' rest)) with
